@@ -923,14 +923,21 @@ def R8(ctx: Ctx) -> RuleResult:
     for fname in ('len', 'sum', 'prod', 'max', 'min'):
         ev = Evaluator(ctx.model, inline=base.inline, assume={Attr(Attr(call, 'function'), 'name'): Const(fname)})
         outs = []
-        for o in expand_outcomes(ev.run(fi, {fi.params()[0]: call})):
-            if o.kind == 'return' and isinstance(o.value, Call) and isinstance(o.value.func, FuncRef) and o.value.args == (call,) and not o.value.kwargs:
-                # delegated to a per-function folder: its own paths (each with its own loops)
-                g = ev.callee(o.value.func)
-                if g is not None and g is not fi:
-                    outs.extend(expand_outcomes(ev.run(g, {g.params()[0]: call})))
-                    continue
+
+        def follow(o, depth_):
+            # delegated to a per-function folder (possibly a shared one parameterised by a constant descriptor): its own
+            # paths, each with its own loops
+            v = o.value
+            if o.kind == 'return' and depth_ < 4 and isinstance(v, Call) and isinstance(v.func, FuncRef) and v.args[:1] == (call,) and not v.kwargs \
+                    and not any(isinstance(x, Sym) and not x.name.startswith('lam:') for a in v.args[1:] for x in walk(a)):
+                g = ev.callee(v.func)
+                if g is not None and g is not fi and len(g.params()) >= len(v.args):
+                    for o2 in expand_outcomes(ev.run(g, dict(zip(g.params(), v.args)))):
+                        follow(Outcome(o2.kind, o2.value, tuple(o.guards) + tuple(o2.guards), tuple(o.effects) + tuple(o2.effects), tuple(o.asserts) + tuple(o2.asserts), o2.lineno, o2.env, o2.trace), depth_ + 1)
+                    return
             outs.append(o)
+        for o in expand_outcomes(ev.run(fi, {fi.params()[0]: call})):
+            follow(o, 0)
         # the outcomes for a range argument: isinstance(<arg>, HplRange) holds on the path
         cases = []
         for o in outs:
